@@ -10,6 +10,7 @@ from common import Scn, hx, Opt, CFGF
 import gen
 
 VARIANT = 'plain'
+COMPARE_LINES = True      # line numbers in diagnostics are part of this property
 RULE = ('error kinds x noise prefixes (all sequences up to a length bound over 11 noise units, random longer) x 3 placements '
         '(top level, in a section, in an included file); non-trivial = at least one noise unit precedes the error; distinct by text')
 F = CFGF
